@@ -135,6 +135,34 @@ theorem c19_proxy_shard (outs : List ROut) (acc : Nat) (h : Accepted outs acc) :
       | _ => .fail :=
   fetchShard_accepted outs acc h
 
+open SV.ProxyAsync in
+/-- **the handler lists one document entry per ID of the merged result** (repaired `makeProtoDocs`): whenever
+`grpcV1.FetchAsyncSearchResult` answers, `Response.Docs` carries exactly the IDs `Ingestor.FetchAsyncSearchResult`
+merged - so `c19_proxy_done_sound` / `c19_request_eq_sync` reach the client -/
+theorem c19_api_docs_one_per_id (paginates : Bool) (desc : Bool) (offset size hi : Nat) (shards : List (List ROut))
+    (d : Bool) (docs : List Nat) (q : QPR) (h : handlerFetch true paginates desc offset size hi shards = .ok d docs q) :
+    docs = q.ids ∧ proxyFetchP paginates desc offset size hi shards = .ok d q :=
+  handlerFetch_docs paginates desc offset size hi shards d docs q h
+
+open SV.ProxyAsync in
+/-- the repaired proxy pages the merged list: IDs `[offset, offset+size)` of the duplicate-free ordered union of the
+shards' results -/
+theorem c19_api_page (desc : Bool) (offset size hi : Nat) (shards : List (List ROut)) (d : Bool) (q : QPR)
+    (h : proxyFetchP true desc offset size hi shards = .ok d q) :
+    ∃ rs : List (Bool × QPR), gather shards = .answers rs ∧
+      q.ids = ((sd desc (rs.flatMap (·.2.ids))).drop offset).take size :=
+  proxyFetchP_page desc offset size hi shards d q h
+
+open SV.ProxyAsync in
+/-- **the code as found**: `makeProtoDocs(&resp.QPR, nil)` calls `docs.Next()` on a nil iterator - a done async search
+with one hit and `Size = 1` makes the handler panic (the client gets `Internal` from the recover interceptor); and the
+request's `Offset` is ignored (offset 1, size 1 over IDs 7, 5 returns 7 instead of 5) -/
+theorem c19_api_nil_iterator_witness :
+    handlerFetch false false true 0 1 0 [[.ok true ⟨[7], 0, some []⟩]] = .panic ∧
+    handlerFetch true false true 1 1 0 [[.ok true ⟨[7, 5], 0, some []⟩]] = .ok true [7] ⟨[7], 0, some []⟩ ∧
+    handlerFetch true true true 1 1 0 [[.ok true ⟨[7, 5], 0, some []⟩]] = .ok true [5] ⟨[5], 0, some []⟩ := by
+  decide +kernel
+
 /-- **c19_resume.**  For every number `k ≥ 1` of atomic writes completed before the process dies (the request info is
 the first one), restart + resume ends with exactly the files of an uninterrupted run - hence the same fetched
 result.  Fraction names are distinct.  (`k = 0`: the request was never persisted nor acknowledged.) -/
@@ -221,10 +249,11 @@ theorem c19_x_persisted_fractions :
 starts true and is cleared by every shard that is not done, no answer at all is `NotFound`, the merge is cut at `r.Size`;
 `StartAsyncSearch`: next replica on error, stop at the first that accepts, fail when none did -/
 theorem c19_x_proxy_fanout :
-    proxyFetchAsyncSearchResult = ["done := true", "anyResponse := false", "if err != nil { return }",
+    proxyFetchAsyncSearchResult.take 8 = ["done := true", "anyResponse := false", "if err != nil { return }",
       "if status.Code(err) == codes.NotFound { continue }", "break", "if err != nil { continue }",
-      "if !storeResp.Done { done = false }", "if !anyResponse { return }",
-      "seq.MergeQPRs(&qpr, qprs, r.Size, histInterval, order)"] ∧
+      "if !storeResp.Done { done = false }", "if !anyResponse { return }"] ∧
+    ((proxyFetchAsyncSearchResult.drop 8 = ["seq.MergeQPRs(&qpr, qprs, r.Size, histInterval, order)"] ∧ proxyAsyncPaginates = false) ∨
+     (proxyFetchAsyncSearchResult.drop 8 = ["seq.MergeQPRs(&qpr, qprs, r.Offset+r.Size, histInterval, order)"] ∧ proxyAsyncPaginates = true)) ∧
     proxyStartAsyncSearch = ["if err != nil { continue }", "break", "if err != nil { return }"] := by decide
 
 /-- **`StartSearch` persists before it acknowledges**: after the info is built, the first statement is the unconditional
@@ -235,6 +264,18 @@ theorem c19_x_durable_before_ack :
     updateSearchInfoBody = ["as.requestsMu.Lock()", "defer as.requestsMu.Unlock()", "as.mustWriteSearchInfo(id, info)",
       "as.requests[id] = info"] ∧
     writeSearchInfoCalls = ["json.Marshal", "mustWriteFileAtomic"] := by decide
+
+/-- the handler passes `Size`/`Offset` down, builds the documents from the merged IDs with a nil iterator, one entry
+per ID, and hard-codes `Total: 0` -/
+theorem c19_x_api_handler :
+    asyncHandlerResponse = ["ID: r.SearchId", "WithDocs: r.WithDocs", "Size: int(r.Size)", "Offset: int(r.Offset)", "Total: 0",
+      "Docs: makeProtoDocs(&resp.QPR, nil)", "Aggs: makeProtoAggregation(resp.AggResult)", "Hist: makeProtoHistogram(&resp.QPR)",
+      "Error: nil", "Explain: nil"] ∧
+    makeProtoDocsLoop = ["for range qpr.IDs", "doc.Id = id.ID.String()", "respDocs[i] = doc"] := by decide
+
+/-- the source contains the repaired `makeProtoDocs` (every `docs.Next()` guarded by `docs != nil`): the model
+`handlerFetch true ..` of `c19_api_docs_one_per_id` is the code -/
+theorem c19_x_api_docs_nil_safe : makeProtoDocsNilSafe = true := by decide
 
 /-- the source contains the repaired fold (the model used by `c19_eq_sync_hist`) -/
 theorem c19_x_fetch_fixed : fetchUsesRequestInterval = true := by decide
